@@ -91,7 +91,7 @@ def main():
                 "quick_cmd": f"./run.sh {pid} quick",
                 "thorough_cmd": f"./run.sh {pid} thorough",
                 "evidence_file": f"/verif/evidence/{pid}.json",
-                "replay_cmd_template": "cat {path}   # self-contained artefact: configuration, operation list, RNG picks; see DESIGN.md 2.2 'Determinism / replay'",
+                "replay_cmd_template": "./replay.sh {path}",
                 "engine": "mc (explicit-state / choice-sequence explorer over the real code)",
                 "level_claimed": {"category": cat, "text": text, "design_ref": ref},
                 "level_note": note,
